@@ -8,12 +8,13 @@ Mirrors, function by function (modelx/core/model.py, reference.py, space.py):
 * `SpaceGraph.get_relative(subspace, basespace, basevalue)`;
 * `SharedSpaceOperations.get_relative_interface`;
 * `ReferenceImpl.__init__` (the default of `is_relative`), `ReferenceImpl.on_inherit`;
-* the per-sub-space step of `SpaceManager.new_ref` / `change_ref` and `_check_subs_relrefs`;
+* the per-sub-space step and the loop of `SpaceManager.new_ref` / `change_ref`, `_check_subs_relrefs`;
 * `DynBaseRefDict.wrap_impl` (references of dynamic spaces: ItemSpace trees).
 
 A dotted name (`idstr`) is a `Path = List String`, the list `idstr.split(".")`, except that
 the empty string is the empty list (Python: `"".split(".") == [""]`, mirrored by `splitP`
-/ `joinP`, because `get_relative` does reach the empty string, see `extP`).  Names are
+/ `joinP`; since 6d7db1b `get_relative` leaves a root to each name, so for names of spaces the
+empty string is no longer reached, the helpers stay literal).  Names are
 assumed to contain no dot (they are Python identifiers).  The linearisation is a parameter
 `mroOf : Path → List Path` (`SpaceGraph.get_mro`, `MxModel.C3.mro` in the driver).
 -/
@@ -93,11 +94,16 @@ def relFinish (sharedParent value : Path) (roots : Path × Path) : RelResult :=
      else .some (joinP (splitP roots.1 ++ trimLeft value (lenNode roots.2))))   -- subroot + "." + relative_part
   else .none
 
-/-- `shared_desc.split(".")` if `shared_desc` else `[]` -/
+/-- `shared_desc.split(".")` if `shared_desc` else `[]`, cut so that a root is left to each of
+the two names (one may be a trailing part of the other, `A.B` and `B`):
+`excess = len(shared_desc) - (min(len_node(subspace), len_node(basespace)) - 1)`,
+`shared_desc = shared_desc[excess:]` if `excess > 0` -/
 def descList (sub base : Path) : List String :=
   match sharedDesc sub base with
   | Option.none => []
-  | Option.some d => if d = [] then [] else splitP d
+  | Option.some d =>
+    if d = [] then []
+    else (splitP d).drop ((splitP d).length - (min (lenNode sub) (lenNode base) - 1))
 
 /-- `SpaceGraph.get_relative(subspace, basespace, basevalue)` -/
 def getRelative (mroOf : Path → List Path) (sub base value : Path) : RelResult :=
@@ -159,14 +165,15 @@ def getRelativeInterface (mroOf : Path → List Path) (exist : Path → Bool)
                else if exist p then Option.some (true, .obj p) else Option.some (true, .null)
 
 /-- `ReferenceImpl.on_inherit(updater, bases)` for the derived reference of space `self`
-whose first defined base reference lives in `defSpace` and holds `baseVal`;
-`selfMode` is the mode stored in the derived reference itself (set when it was created,
-see `createDerived`), `old` its binding before the call -/
-def onInherit (mroOf : Path → List Path) (exist : Path → Bool) (selfMode : Mode)
+whose first defined base reference lives in `defSpace`, has mode `defMode` and holds `baseVal`;
+the stored mode is refreshed first (`self.refmode = bases[0].refmode`), so the mode the
+reference had before plays no role; `old` is its binding before the call (the flag survives
+when the base holds no modelx object) -/
+def onInherit (mroOf : Path → List Path) (exist : Path → Bool) (defMode : Mode)
     (self defSpace : Path) (baseVal : Target) (old : Binding) : Outcome :=
   match baseVal with
   | .obj v =>
-    match selfMode with
+    match defMode with
     | .absolute => .bound ⟨.obj v, false⟩
     | .auto =>
       match getRelativeInterface mroOf exist self defSpace v with
@@ -188,12 +195,12 @@ structure DRef where
 is_derived=True, refmode=bs[0].refmode)` -/
 def createDerived (definerMode : Mode) : DRef := ⟨definerMode, ⟨.plain 0, ctorFlag definerMode⟩⟩
 
-/-- … followed, or for an existing derived reference preceded by nothing, by
-`selfdict[name].on_inherit(updater, bs)`: the stored mode is **not** refreshed from `bs[0]` -/
-def reinherit (mroOf : Path → List Path) (exist : Path → Bool) (r : DRef)
+/-- `selfdict[name].on_inherit(updater, bs)` for an existing (or just created) derived reference
+`r`: mode and binding are those of the (possibly new) first defined base -/
+def reinherit (mroOf : Path → List Path) (exist : Path → Bool) (r : DRef) (defMode : Mode)
     (self defSpace : Path) (baseVal : Target) : Option DRef :=
-  match onInherit mroOf exist r.mode self defSpace baseVal r.binding with
-  | .bound b => Option.some ⟨r.mode, b⟩
+  match onInherit mroOf exist defMode self defSpace baseVal r.binding with
+  | .bound b => Option.some ⟨defMode, b⟩
   | _ => Option.none
 
 /-- `_check_subs_relrefs` for one sub space that does not define the name: `true` = raises -/
@@ -221,57 +228,31 @@ def newRefSub (mroOf : Path → List Path) (exist : Path → Bool) (mode : Mode)
       | Option.some (rel, t) => Option.some ⟨mode, ⟨t, rel⟩⟩
   | t => Option.some ⟨mode, ⟨t, false⟩⟩
 
-/-- one iteration of the loop in `SpaceManager.change_ref`: `on_change_ref` returns the
-**old** reference object, so `ref.is_relative = is_relative` marks the discarded one; the
-new derived reference keeps the constructor's default -/
+/-- one iteration of the loop in `SpaceManager.change_ref`: the old derived reference is replaced
+(`on_change_ref`) and the computed flag is stored in the new one
+(`subspace.own_refs[name].is_relative = is_relative`) – the same as `new_ref` -/
 def changeRefSub (mroOf : Path → List Path) (exist : Path → Bool) (mode : Mode)
     (sub space : Path) (value : Target) : Option DRef :=
-  (newRefSub mroOf exist mode sub space value).map
-    (fun r => ⟨r.mode, ⟨r.binding.target, ctorFlag mode⟩⟩)
-
-/-- `true` when the derived reference was bound to a null object -/
-def boundNull : Option DRef → Bool
-  | some r => r.binding.target == .null
-  | none => false
+  newRefSub mroOf exist mode sub space value
 
 /-- the whole `for subspace in self._get_subs(space):` loop of `new_ref` (`change = false`) or
-`change_ref` (`change = true`) over the sub spaces it does not skip, in its order: `value` is
-**reassigned inside the loop** (`is_relative, value = self.get_relative_interface(...)`), so once
-one sub space got a null object (a counterpart that does not exist) the test
-`value._is_valid()` fails for every following sub space and they all get that null object –
-with `is_relative = False` (`new_ref`) or the constructor's default (`change_ref`) -/
+`change_ref` (`change = true`) over the sub spaces it does not skip, in its order: every sub
+space gets its own `subvalue`, computed from the value assigned to the space -/
 def refLoop (mroOf : Path → List Path) (exist : Path → Bool) (change : Bool) (mode : Mode)
-    (space : Path) (value : Target) : List Path → Bool → List (Option DRef)
-  | [], _ => []
-  | sub :: rest, poisoned =>
-    if poisoned then
-      some ⟨mode, ⟨.null, if change then ctorFlag mode else false⟩⟩ ::
-        refLoop mroOf exist change mode space value rest true
-    else
-      (if change then changeRefSub mroOf exist mode sub space value
-       else newRefSub mroOf exist mode sub space value) ::
-        refLoop mroOf exist change mode space value rest
-          (boundNull (newRefSub mroOf exist mode sub space value))
+    (space : Path) (value : Target) (subs : List Path) : List (Option DRef) :=
+  subs.map (fun sub =>
+    if change then changeRefSub mroOf exist mode sub space value
+    else newRefSub mroOf exist mode sub space value)
 
 /-! ## dynamic spaces: `DynBaseRefDict.wrap_impl` -/
 
-/-- `a` is a string prefix of `b` -/
-def strPrefix (a b : String) : Bool := a.toList.isPrefixOf b.toList
-/-- `b[n:]` -/
-def strDrop (b : String) (n : Nat) : String := String.ofList (b.toList.drop n)
-
-/-- the test `root == impl[:rootlen]` and the name list `impl[rootlen+1:].split(".")`, on
-paths: the dotted string of `root` is a string prefix of that of `impl` iff all but the last
-component agree and the last component of `root` is a string prefix of the corresponding
-component of `impl` (names contain no dot); the slice then skips one more character –
-the dot, or, when the names merely share a prefix (`Base` / `Base2`), a letter. -/
+/-- the test `impl.startswith(root + ".")` and the name list `impl[rootlen+1:].split(".")`, on
+paths (names contain no dot): `root` is a proper prefix of `impl` by components, and the rest
+is what follows it -/
 def wrapLookup : Path → Path → Option Path
-  | [], _ => none
+  | [], rest => if rest = [] then none else some rest
   | _ :: _, [] => none
-  | [r], i :: rest =>
-    if r = i then some rest
-    else if strPrefix r i then some (strDrop i (r.length + 1) :: rest) else none
-  | r :: r2 :: rs, i :: rest => if r = i then wrapLookup (r2 :: rs) rest else none
+  | r :: rs, i :: rest => if r = i then wrapLookup rs rest else none
 
 /-- a reference of a base space as `wrap_impl` sees it -/
 structure BaseRef where
@@ -290,8 +271,6 @@ inductive WrapResult
   | missing
   /-- the base's reference itself: keeps denoting the original object -/
   | keep
-  /-- `value.direct_bases[0]`: `ReferenceImpl` has no such attribute (`AttributeError`) -/
-  | attrError
   /-- `ValueError("… is out of …")` -/
   | reject
   | mustNotHappen
@@ -311,7 +290,7 @@ def wrapImpl (existsRel : Path → Bool) (root : Path) (_owner : Path) (r : Base
         | some rel => if existsRel rel then .dyn rel else .missing
         | none =>
           match r.mode with
-          | .auto => if r.defined then .keep else .attrError
+          | .auto => .keep
           | .relative => .reject
           | .absolute => .mustNotHappen
     else .keep
